@@ -301,6 +301,12 @@ func (c *TCPConn) Write(b []byte) (int, error) {
 			return 0, opErr("write", s.Addr, net.ErrClosed)
 		}
 	}
+	// a write deadline is an absolute instant: once it has passed, every write fails at once,
+	// writable socket or not (net.Conn contract)
+	if !c.wdl.IsZero() && !simrt.Now().Before(c.wdl) && len(b) > 0 {
+		s.fault("write_deadline_already_passed")
+		return 0, opErr("write", s.Addr, timeoutErr{})
+	}
 	written := 0
 	for written < len(b) {
 		if s.PeerReset {
@@ -429,6 +435,9 @@ func (c *TCPConn) Read(b []byte) (int, error) {
 	}
 	if len(b) == 0 {
 		return 0, nil
+	}
+	if !c.rdl.IsZero() && !simrt.Now().Before(c.rdl) {
+		return 0, opErr("read", s.Addr, timeoutErr{})
 	}
 	avail := len(s.ToClient) - s.rdPos
 	if avail == 0 {
